@@ -32,6 +32,16 @@ def main(argv):
         except Exception:
             sys.stderr.write('HARNESS-ERROR: replay failed\n%s\n' % traceback.format_exc())
             return 2
+        known = getattr(module, 'KNOWN', {})
+        listed = {e['id'] for e in core.load_known(pid) if e.get('status') == 'finding'}
+        fresh = []
+        for v in vs:
+            hit = [fid for fid, pred in known.items() if fid in listed and pred(v)]
+            if hit:
+                print('KNOWN-FINDING: property=%s %s (%s)' % (pid, hit[0], v['signature']))
+            else:
+                fresh.append(v)
+        vs = fresh
         if vs:
             for v in vs:
                 print('VIOLATION property=%s replay=%s' % (pid, os.path.relpath(path, core.VERIF)))
